@@ -799,3 +799,19 @@ Proof.
   cbn [pka] in Hp. subst p. rewrite stop_eq. go.
   all: try (split; reflexivity); try lia'.
 Qed.
+
+(* Giving up discards what was queued in EVERY state: whether or not the
+   zero-key-material timer of an earlier session is still pending. *)
+Theorem giveup_always_discards : forall s d jr jn,
+  pending (tm_retransmit s) = true -> MaxTimerHandshakes < attempts s ->
+  snd (fire d jr jn TRetransmit s) = [] /\ staged (fst (fire d jr jn TRetransmit s)) = [] /\
+  pending (tm_zero (fst (fire d jr jn TRetransmit s))) = active s || pending (tm_zero s).
+Proof.
+  intros s d jr jn Hp Ha.
+  destruct s as [a [ptr dtr] tk tn [pz dz] tp att na slm lsh p q kc kn h].
+  cbn [tm_retransmit pending attempts] in Hp, Ha. subst ptr.
+  unfold fire, expiredRetransmitHandshake, flushStagedPackets.
+  cbn [get_timer set_timer tm_retransmit pending negb].
+  assert (E : (MaxTimerHandshakes <? att) = true) by (apply N.ltb_lt; exact Ha).
+  destruct a, pz; pcbn; rewrite E; pcbn; refine (conj eq_refl (conj eq_refl eq_refl)).
+Qed.
